@@ -806,6 +806,41 @@ def lane_ctor(ctx):
     return lc.run()
 
 
+def lane_mapping(ctx, rounds=2):
+    """list(obj), len(obj), `name in obj`, obj[name], cls.amqp_type(name) for every class (C19)"""
+    lm = Lane('mapping')
+    g = ctx.gen
+    targets = [(meta['key'], commands.INDEX_MAPPING[meta['key']], meta) for meta in ctx.generated['catalogue']['methods']]
+    pm = ctx.generated['catalogue']['properties']
+    for key, cls, meta in targets + [(0, commands.Basic.Properties, None)]:
+        slots = list(cls.__slots__)
+        for rnd in range(rounds):
+            if meta is not None:
+                vals = method_vals_ok(ctx, cls, meta)
+            else:
+                vals = props_vals(ctx, g.r.getrandbits(len(slots)))
+            for i in range(len(vals)):
+                if g.r.random() < 0.3:
+                    vals[i] = g.value_ok(1, 2) if g.r.random() < 0.7 else g.r.choice(FALSY)
+            obj = real.make_method(cls, vals) if meta is not None else real.make_props(vals)
+
+            def it(obj=obj):
+                pairs = list(obj)
+                return 'ok %d' % len(obj) + ''.join(' %s %s' % (k, sx(v)) for k, v in pairs)
+            lm.try_add(lambda: 'map.iter %d' % key + ''.join(' ' + sx(x) for x in vals), lambda: outcome(it, show=lambda x: x[3:]),
+                       '%s iter %r' % (cls.name, vals), 'iter')
+            others = [n for n in dir(obj) if n not in slots and not n.startswith('__')]
+            probes = slots + g.r.sample(others, min(3, len(others))) + ['_' + slots[0] if slots else 'x', 'no_such_name']
+            for name in probes:
+                def item(obj=obj, name=name, cls=cls):
+                    if name in slots:
+                        return 'ok %d %s %s' % (1 if name in obj else 0, sx(obj[name]), cls.amqp_type(name))
+                    return 'ok %d - -' % (1 if name in obj else 0)
+                lm.try_add(lambda: 'map.item %d %s' % (key, name) + ''.join(' ' + sx(x) for x in vals), lambda: outcome(item, show=lambda x: x[3:]),
+                           '%s item %s %r' % (cls.name, name, vals), 'item')
+    return lm.run()
+
+
 FALSY = [None, 0, False, '', {}, [], b'', 0.0, -0.0, D(0), D('-0.00'), bytearray()]
 
 
